@@ -233,7 +233,7 @@ class LiteralEvaluator:
 
 	def on_integer(self, node: defs.Integer) -> Evaluator.Value:
 		tokens = node.tokens
-		if tokens.startswith('0x'):
+		if tokens.lower().startswith('0x'):
 			return int(node.tokens, base=0x10)
 		else:
 			return int(node.tokens)
